@@ -8,7 +8,7 @@
 //
 // Modes:
 //
-//	rudecay --seed S --scenarios N [--core] [--workers W] [--emit PREFIX]   sweep, JSON summary on stdout
+//	rudecay --seed S --scenarios N [--core] [--workers W] [--emit PREFIX]   sweep (fixed corpus first), JSON summary on stdout
 //	rudecay --replay        scenarios (JSON array) on stdin, same summary
 //	rudecay --points        lines "y yl created now h_ns B L" on stdin, same line + value on stdout
 package main
@@ -30,8 +30,6 @@ import (
 )
 
 const maxAmount = uint64(1) << 53
-
-var maxFail = 3 // failures kept per signature
 
 // Scenario: an output of Y units created at Created, valued after X1 and after X1+X2 nanoseconds,
 // re-valued (as a fresh output of the intermediate value) over the second interval, valued after one
@@ -63,6 +61,8 @@ type Failure struct {
 	Branch    string   `json:"branch"`
 	Signature string   `json:"signature"`
 	Detail    string   `json:"detail"`
+	Index     int      `json:"scenario_index"` // position in this run's scenario list (corpus first)
+	Count     int64    `json:"count"`          // scenarios of this run with the same signature
 	Scenario  Scenario `json:"scenario"`
 	Values    Values   `json:"values"`
 }
@@ -91,6 +91,12 @@ func withinSlack(d, m uint64) bool {
 	return d <= 1 || d-1 <= m>>44
 }
 
+// dust: 0 < amount < 2^-28 · limit (exact: y·2^28 < L ⇔ y ≤ (L−1)>>28).  In float64 the quotient
+// (l-y)/l then keeps fewer than ~25 significant bits of the amount.
+func dust(a, L uint64) bool {
+	return a > 0 && L > 0 && a <= (L-1)>>28
+}
+
 func branch(s Scenario) string {
 	switch {
 	case !s.Yielding:
@@ -115,13 +121,14 @@ type stats struct {
 	scenarios  int64
 	hist       map[string]int64
 	distinct   map[uint64]struct{}
-	failures   []Failure
+	first      map[string]*Failure // first witness (smallest scenario index) per signature
 	failCounts map[string]int64
 	samples    []map[string]interface{}
 }
 
 func newStats() *stats {
-	return &stats{hist: map[string]int64{}, distinct: map[uint64]struct{}{}, failCounts: map[string]int64{}}
+	return &stats{hist: map[string]int64{}, distinct: map[uint64]struct{}{}, failCounts: map[string]int64{},
+		first: map[string]*Failure{}}
 }
 
 func mix(h uint64, v uint64) uint64 {
@@ -152,7 +159,7 @@ func elapsedBucket(x, h int64) string {
 }
 
 // evaluate runs one scenario on the real code and checks every clause of the property.
-func evaluate(s Scenario, st *stats, emit *bufio.Writer) {
+func evaluate(idx int, s Scenario, st *stats, emit *bufio.Writer) {
 	h := float64(s.HNs)
 	rec := func(y uint64, created, now int64) uint64 {
 		v := value(y, s.Yielding, created, now, h, s.B, s.L)
@@ -191,17 +198,32 @@ func evaluate(s Scenario, st *stats, emit *bufio.Writer) {
 	if len(st.samples) < 3 {
 		st.samples = append(st.samples, map[string]interface{}{"scenario": s, "values": v, "branch": br})
 	}
-	fail := func(clause, detail string) {
-		sig := "C09/" + clause + "/" + br + "/" + limitBucket(s.L)
+	// fail records a clause failure under a regime-tagged signature: sig = C09/<clause>/<branch>/<tag>.
+	// At most one witness per signature is kept (the scenario with the smallest index), plus a count.
+	failBr := func(clause, fbr, tag, detail string) {
+		sig := "C09/" + clause + "/" + fbr + "/" + tag
 		st.failCounts[sig]++
-		if st.failCounts[sig] <= int64(maxFail) {
-			st.failures = append(st.failures, Failure{clause, br, sig, detail, s, v})
+		if cur, ok := st.first[sig]; !ok || idx < cur.Index {
+			st.first[sig] = &Failure{Clause: clause, Branch: fbr, Signature: sig, Detail: detail, Index: idx, Scenario: s, Values: v}
 		}
 	}
+	fail := func(clause, tag, detail string) { failBr(clause, br, tag, detail) }
+	lb := limitBucket(s.L)
 	slackM := max64(s.Y, s.L)
 	// ---- value depends only on elapsed time
 	if v.VS != v.V1 {
-		fail("elapsed-only", fmt.Sprintf("Value over [created,created+x1] = %d but over the same interval shifted by %d ns = %d", v.V1, s.D, v.VS))
+		fail("elapsed-only", lb, fmt.Sprintf("Value over [created,created+x1] = %d but over the same interval shifted by %d ns = %d", v.V1, s.D, v.VS))
+	}
+	dipTag := func(d uint64, word string) string {
+		switch {
+		case d == 1:
+			return word + "-1-unit"
+		case d == 2 && s.L >= 1<<52:
+			return word + "-2-units/limit>=2^52"
+		case d == 2:
+			return word + ">=2"
+		}
+		return word + ">=3"
 	}
 	chain := []uint64{v.V0, v.V1, v.V12} // values at elapsed 0 ≤ x1 ≤ x1+x2
 	names := []string{"0", "x1", "x1+x2"}
@@ -209,23 +231,22 @@ func evaluate(s Scenario, st *stats, emit *bufio.Writer) {
 		// never exceeds the initial value
 		for i, c := range chain {
 			if c > s.Y {
-				fail("f-le-init", fmt.Sprintf("non-yielding value %d at elapsed %s exceeds the initial value %d", c, names[i], s.Y))
+				fail("f-le-init", lb, fmt.Sprintf("non-yielding value %d at elapsed %s exceeds the initial value %d", c, names[i], s.Y))
 			}
 		}
 		if v.VH > s.Y {
-			fail("f-le-init", fmt.Sprintf("non-yielding value %d at one half-life exceeds the initial value %d", v.VH, s.Y))
+			fail("f-le-init", lb, fmt.Sprintf("non-yielding value %d at one half-life exceeds the initial value %d", v.VH, s.Y))
 		}
 		// never increases with time
 		for i := 0; i+1 < len(chain); i++ {
 			if chain[i+1] > chain[i] {
-				fail("f-antitone", fmt.Sprintf("non-yielding value increases with time: %d at elapsed %s, %d at elapsed %s", chain[i], names[i], chain[i+1], names[i+1]))
-				st.hist[fmt.Sprintf("f-increase-by:%d", chain[i+1]-chain[i])]++
+				fail("monotone", dipTag(chain[i+1]-chain[i], "rise"), fmt.Sprintf("non-yielding value increases with time: %d at elapsed %s, %d at elapsed %s", chain[i], names[i], chain[i+1], names[i+1]))
 			}
 		}
 		// halves every half-life: |vh − y/2| ≤ 1 + 2^-44·y   (⇔ |2vh − y| ≤ 2 + 2^-43·y)
 		d2 := absdiff(2*v.VH, s.Y)
 		if !(d2 <= 2 || d2-2 <= s.Y>>43) {
-			fail("f-half", fmt.Sprintf("after one half-life the value is %d, initial value %d (half = %d.%d)", v.VH, s.Y, s.Y/2, (s.Y%2)*5))
+			fail("f-half", lb, fmt.Sprintf("after one half-life the value is %d, initial value %d (half = %d.%d)", v.VH, s.Y, s.Y/2, (s.Y%2)*5))
 		}
 		st.hist[fmt.Sprintf("f-half-dev(2v-y):%s", devBucket(d2))]++
 	} else {
@@ -238,35 +259,41 @@ func evaluate(s Scenario, st *stats, emit *bufio.Writer) {
 		an := append(append([]string{}, names...), "h")
 		for i, c := range all {
 			if c+1 < lo || c > hi+1 {
-				fail("g-bounds", fmt.Sprintf("yielding value %d at elapsed %s is outside [%d-1, %d+1] (initial value %d, limit %d)", c, an[i], lo, hi, s.Y, s.L))
+				off := uint64(0) // distance from [lo, hi]
+				if c < lo {
+					off = lo - c
+				} else {
+					off = c - hi
+				}
+				tag := lb
+				if off >= 4 {
+					tag = lb + "/off-by>=4"
+				}
+				fail("g-bounds", tag, fmt.Sprintf("yielding value %d at elapsed %s is outside [%d-1, %d+1] (initial value %d, limit %d), off by %d units", c, an[i], lo, hi, s.Y, s.L, off))
 			} else if c < lo || c > hi {
-				st.hist["g-bounds-used-one-unit"]++
+				st.hist["g-bounds-used-the-one-unit-grace"]++
 			}
 		}
-		// moves monotonically toward the limit — within one unit (the text's "(within one unit)";
-		// strict exceptions of exactly one unit are counted, not failed: the float product before
-		// math.Floor can land just below an integer, e.g. y=2, L=4: -4*0.5000000000000001 ↦ -3)
+		// moves monotonically toward the limit — checked STRICTLY (no slack).  Known on the unchanged
+		// tree: the float product before math.Floor can land just below an integer (y=1, B=1, L=4:
+		// -4*exp(..) = -3.0000000000000004 ↦ floor -4 ↦ value 0), so the value dips by one unit right
+		// after creation; the regime tags give such exceptions their own signatures.
 		for i := 0; i+1 < len(chain); i++ {
 			a, b := chain[i], chain[i+1]
 			switch {
 			case s.Y < s.L && b < a:
-				if a-b > 1 {
-					fail("g-low-mono", fmt.Sprintf("yielding value below the limit decreases with time by more than one unit: %d at elapsed %s, %d at elapsed %s", a, names[i], b, names[i+1]))
-				}
-				st.hist[fmt.Sprintf("strict-mono-exception:g-low-decrease-by:%d", a-b)]++
+				fail("monotone", dipTag(a-b, "dip"), fmt.Sprintf("yielding value below the limit decreases with time by %d: %d at elapsed %s, %d at elapsed %s", a-b, a, names[i], b, names[i+1]))
 			case s.Y > s.L && b > a:
-				if b-a > 1 {
-					fail("g-high-antitone", fmt.Sprintf("yielding value above the limit increases with time by more than one unit: %d at elapsed %s, %d at elapsed %s", a, names[i], b, names[i+1]))
-				}
-				st.hist[fmt.Sprintf("strict-mono-exception:g-high-increase-by:%d", b-a)]++
+				fail("monotone", dipTag(b-a, "rise"), fmt.Sprintf("yielding value above the limit increases with time by %d: %d at elapsed %s, %d at elapsed %s", b-a, a, names[i], b, names[i+1]))
 			case s.Y == s.L && b != a:
-				fail("g-eq-limit", fmt.Sprintf("yielding value at the limit moves: %d at elapsed %s, %d at elapsed %s", a, names[i], b, names[i+1]))
+				fail("monotone", "moved-at-limit", fmt.Sprintf("yielding value at the limit moves: %d at elapsed %s, %d at elapsed %s", a, names[i], b, names[i+1]))
 			}
 		}
 		// from zero reaches the income base after one half-life
 		dz := absdiff(v.VZ, s.B)
 		if !withinSlack(dz, s.L) {
-			fail("g-from-zero", fmt.Sprintf("from zero, after one half-life the value is %d, income base %d, limit %d", v.VZ, s.B, s.L))
+			// the from-zero valuation is always the low branch (0 < L), whatever the scenario's own amount
+			failBr("g-from-zero", "g-low", lb, fmt.Sprintf("from zero, after one half-life the value is %d, income base %d, limit %d", v.VZ, s.B, s.L))
 		}
 		st.hist["g-from-zero-dev:"+devBucket(dz)]++
 	}
@@ -274,7 +301,13 @@ func evaluate(s Scenario, st *stats, emit *bufio.Writer) {
 	if v.V2 > v.V12 {
 		d := v.V2 - v.V12
 		if !withinSlack(d, slackM) {
-			fail("no-gain", fmt.Sprintf("two-step valuation %d (via %d) exceeds the one-step valuation %d by %d > 1 + 2^-44*%d", v.V2, v.V1, v.V12, d, slackM))
+			tag := lb
+			if s.L >= 1<<48 && (dust(s.Y, s.L) || dust(v.V1, s.L)) {
+				// float64 cancellation in (l-y)/l for dust amounts under huge limits; the amount
+				// valued is the initial one in the first step and the intermediate one in the second
+				tag = "limit>=2^48-dust"
+			}
+			fail("no-gain", tag, fmt.Sprintf("two-step valuation %d (via %d) exceeds the one-step valuation %d by %d > 1 + 2^-44*%d", v.V2, v.V1, v.V12, d, slackM))
 		}
 		st.hist["no-gain:two-step-above-by:"+devBucket(d)]++
 	} else if v.V2 == v.V12 {
@@ -569,6 +602,28 @@ func coreScenarios(r *rand.Rand) []Scenario {
 	return out
 }
 
+// corpus: fixed scenarios evaluated first in every sweep, so that the witnesses of what is known about
+// the unchanged tree (regime-tagged signatures) do not depend on the seed, plus ordinary points at the
+// production settings (settings.json: half-life 373.59 days, base 5e10, limit 1e13).
+func corpus() []Scenario {
+	ph := productionHalfLife()
+	return []Scenario{
+		// C09/monotone/g-low/dip-1-unit: 1 ↦ 0 one nanosecond after creation
+		{Y: 1, Yielding: true, HNs: ph, B: 1, L: 4, Created: 0, X1: 1, X2: 1, D: 1},
+		// the same at the production settings: 7319303767953 ↦ 7319303767952
+		{Y: 7319303767953, Yielding: true, HNs: ph, B: 50000000000, L: 10000000000000, Created: 1700000000000000000, X1: 1, X2: 1, D: 1},
+		// C09/g-bounds/g-low/limit>=2^52 and C09/monotone/g-low/dip-2-units/limit>=2^52: y ↦ y-2
+		{Y: 6038788121131732, Yielding: true, HNs: 903394565637904, B: 1, L: 1 << 53, Created: 1700000000000000000, X1: 1000, X2: 18067891312757080, D: 1},
+		// C09/no-gain/g-low/limit>=2^48-dust: 50 ↦ 51 after 1.2 ms, two-step exceeds one-step by 400 > 164
+		{Y: 50, Yielding: true, HNs: 31536000000000000, B: 6462500629317, L: 2879745510405332, Created: 0, X1: 1176553, X2: 630719999998823447, D: 1},
+		// ordinary production points
+		{Y: 0, Yielding: true, HNs: ph, B: 50000000000, L: 10000000000000, Created: 1700000000000000000, X1: day, X2: 30 * day, D: 1000000007},
+		{Y: 100000000, Yielding: true, HNs: ph, B: 50000000000, L: 10000000000000, Created: 1700000000000000000, X1: day, X2: 30 * day, D: 1000000007},
+		{Y: 20000000000000, Yielding: true, HNs: ph, B: 50000000000, L: 10000000000000, Created: 1700000000000000000, X1: day, X2: 30 * day, D: 1000000007},
+		{Y: 123456789012, Yielding: false, HNs: ph, B: 50000000000, L: 10000000000000, Created: 1700000000000000000, X1: day, X2: 30 * day, D: 1000000007},
+	}
+}
+
 // ---------------------------------------------------------------- driver
 
 func summarize(all []*stats, mode string, seed int64) map[string]interface{} {
@@ -585,7 +640,11 @@ func summarize(all []*stats, mode string, seed int64) map[string]interface{} {
 		for k, v := range st.failCounts {
 			tot.failCounts[k] += v
 		}
-		tot.failures = append(tot.failures, st.failures...)
+		for sig, f := range st.first {
+			if cur, ok := tot.first[sig]; !ok || f.Index < cur.Index {
+				tot.first[sig] = f
+			}
+		}
 		if len(tot.samples) < 3 {
 			tot.samples = append(tot.samples, st.samples...)
 		}
@@ -593,18 +652,18 @@ func summarize(all []*stats, mode string, seed int64) map[string]interface{} {
 	if len(tot.samples) > 3 {
 		tot.samples = tot.samples[:3]
 	}
-	sort.SliceStable(tot.failures, func(i, j int) bool { return tot.failures[i].Signature < tot.failures[j].Signature })
-	// at most 3 failures per signature overall
-	seen := map[string]int{}
-	var fl []Failure
-	for _, f := range tot.failures {
-		seen[f.Signature]++
-		if seen[f.Signature] <= maxFail {
-			fl = append(fl, f)
-		}
+	sigs := make([]string, 0, len(tot.first))
+	for sig := range tot.first {
+		sigs = append(sigs, sig)
 	}
-	if fl == nil {
-		fl = []Failure{}
+	sort.Strings(sigs)
+	fl := []Failure{}
+	for _, sig := range sigs {
+		f := *tot.first[sig]
+		f.Count = tot.failCounts[sig]
+		f.Detail = fmt.Sprintf("%s  [%d scenario(s) of this run with this signature; first witness: scenario #%d]", f.Detail, f.Count, f.Index)
+		fl = append(fl, f)
+		tot.hist["failures:"+sig] = f.Count
 	}
 	return map[string]interface{}{
 		"mode": mode, "seed": seed, "evaluations": tot.evals, "scenarios": tot.scenarios,
@@ -623,7 +682,6 @@ func main() {
 	emit := flag.String("emit", "", "write every evaluated point to PREFIX.<worker>")
 	replay := flag.Bool("replay", false, "read a JSON array of scenarios from stdin")
 	points := flag.Bool("points", false, "read points from stdin, print their values")
-	flag.IntVar(&maxFail, "max-fail", 3, "failures reported per signature")
 	flag.Parse()
 
 	if *points {
@@ -669,6 +727,7 @@ func main() {
 		}
 	} else {
 		r := rand.New(rand.NewSource(*seed))
+		scenarios = append(scenarios, corpus()...)
 		if *core {
 			scenarios = append(scenarios, coreScenarios(r)...)
 		}
@@ -700,7 +759,7 @@ func main() {
 				defer bw.Flush()
 			}
 			for i := w; i < len(scenarios); i += W {
-				evaluate(scenarios[i], all[w], bw)
+				evaluate(i, scenarios[i], all[w], bw)
 			}
 		}(w)
 	}
